@@ -240,16 +240,41 @@ pub fn fuzz_suite(out: &mut Out, coll: &str, seed: u64, millis: u64) -> (u64, bo
 // segment tree
 
 fn seg_cfg(h: u64) -> (i64, i64, usize, u32, i64) {
-    let (lo, hi) = [(0i64, 31i64), (-64, 63), (0, 1000), (-100_000, 900_000), (5, 21), (0, 127)][(h % 6) as usize];
+    let (lo, hi) = [(0i64, 31i64), (-64, 63), (0, 1000), (-100_000, 900_000), (5, 21), (0, 127), (0, 0), (0, 0)][(h % 8) as usize];
     (lo, hi, [200usize, 800, 2500][(h % 3) as usize], ((h / 3) % 3) as u32, [2i64, 6, 40, 400][((h / 5) % 4) as usize])
 }
 
 fn one_seg_history(lo: i64, hi: i64, len: usize, profile: u32, life: i64, rng: &mut Rng, ops_done: &AtomicU64, rec: &mut Vec<Op>, flush: bool) -> bool {
     use crate::seg::ref_scale;
     rec.clear();
+    // (0, 0) stands for a random domain: any offset, lengths spread over the powers of two and their neighbours
+    let (lo, hi) = if lo == 0 && hi == 0 {
+        let e = rng.range(0, 40);
+        let base: i64 = 1i64 << e;
+        let len = match rng.below(6) { 0 => base, 1 => base + 1, 2 => (base - 1).max(1), 3 => base + rng.range(0, base), 4 => rng.range(1, 40), _ => 32 * base + rng.range(-1, 1) };
+        let lo = match rng.below(4) { 0 => 0, 1 => -(len / 2), 2 => rng.range(-(1i64 << 40), 1i64 << 40), _ => -len - rng.range(0, 1000) };
+        (lo, lo + len.max(1) - 1)
+    } else { (lo, hi) };
+    rec.push(Op::new("new", &[lo, hi]));
     if flush { eprintln!("@new fuzz-seg seg 0 0"); eprintln!("@op new {} {}", lo, hi); }
-    let mut c = match SegC::new(lo, hi) { Some(c) => c, None => return false };
-    let sc = ref_scale(lo, hi).unwrap_or(0);
+    let built = SegC::new(lo, hi);
+    // construction and coordinate mapping against the reference (C14)
+    let exp_scale = ref_scale(lo, hi);
+    match (&built, exp_scale) {
+        (None, None) => { ops_done.fetch_add(1, Ordering::Relaxed); return false; }
+        (Some(c), Some(s)) => {
+            let (mn, mx, sc, cnt) = c.0.verif_layout();
+            let ihi = c.0.verif_index(hi);
+            let mid = lo + (hi - lo) / 2;
+            let imid = c.0.verif_index(mid);
+            if sc != s || mn != lo || mx != hi || c.0.verif_index(lo) != 0 || ihi >= 32 || imid > ihi || (imid as i64) != ((mid - lo) >> s) || cnt < ihi as usize + 32 {
+                ops_done.fetch_add(1, Ordering::Relaxed); return true;
+            }
+        }
+        _ => { ops_done.fetch_add(1, Ordering::Relaxed); return true; }
+    }
+    let mut c = built.unwrap();
+    let sc = exp_scale.unwrap_or(0);
     let bucket = |x: i64| -> i64 { (x - lo) >> sc };
     let span = hi - lo;
     let mut vals: Vec<(i64, i64, i64, i64)> = Vec::new();
@@ -355,12 +380,81 @@ pub fn fuzz_seg(out: &mut Out, seed: u64, millis: u64) -> (u64, bool) {
     let n = ops_done.load(Ordering::Relaxed);
     let f = found.lock().unwrap().take();
     for th in 0..16 { let _ = std::fs::remove_file(format!("{}/fuzz-seg-{}.cur", dir, th)); }
-    if let Some((ops, lo, hi)) = f {
+    if let Some((ops, _, _)) = f {
         let before = out.oracle_fails;
+        // (the first recorded operation is the construction with the domain actually used)
+        let (lo, hi) = (ops[0].a[0], ops[0].a[1]);
         let mut r = crate::seg::SegRunner::new(out, "fuzz-seg", lo, hi);
-        for op in &ops { r.step(op); if r.dead { break; } }
+        for op in &ops[1..] { r.step(op); if r.dead { break; } }
         if r.out.oracle_fails == before {
             r.fail(&["C03", "C16"], "an answer / the stored copies along a long random history differ from the reference (high-volume differential run)", "the reference answer", "see the last operation of the history");
+        }
+        r.end();
+        return (n, true);
+    }
+    (n, false)
+}
+
+/// construction and coordinate mapping only (C14): random domains at any offset, lengths over the powers of two and
+/// their neighbours; returns (domains tried, a failure was replayed)
+pub fn fuzz_layouts(out: &mut Out, seed: u64, millis: u64) -> (u64, bool) {
+    use crate::seg::ref_scale;
+    let done = AtomicU64::new(0);
+    let stop = AtomicBool::new(false);
+    let found: Mutex<Option<(i64, i64)>> = Mutex::new(None);
+    let deadline = Instant::now() + Duration::from_millis(millis);
+    std::thread::scope(|sc| {
+        for th in 0..16u64 {
+            let (done, stop, found) = (&done, &stop, &found);
+            sc.spawn(move || {
+                silent_panics();
+                let mut rng = Rng::new(seed.wrapping_mul(65_537).wrapping_add(th * 31 + 3));
+                let mut n = 0u64;
+                while !stop.load(Ordering::Relaxed) && (n % 256 != 0 || Instant::now() < deadline) {
+                    n += 1;
+                    let e = rng.range(0, 61);
+                    let base: i64 = 1i64 << e;
+                    let len = match rng.below(7) { 0 => base, 1 => base + 1, 2 => (base - 1).max(1), 3 => base + rng.range(0, base - 1), 4 => rng.range(1, 70), 5 => base + 2, _ => (base - 2).max(1) };
+                    let lo = match rng.below(5) { 0 => 0, 1 => -(len / 2), 2 => rng.range(-(1i64 << 61), 1i64 << 61), 3 => -len, _ => rng.range(-100, 100) };
+                    let hi = match lo.checked_add(len - 1) { Some(h) => h, None => continue };
+                    if (hi as i128) - (lo as i128) + 1 >= (1i128 << 62) { continue; }
+                    let res = std::panic::catch_unwind(|| {
+                        let built = SegC::new(lo, hi);
+                        match (&built, ref_scale(lo, hi)) {
+                            (None, None) => true,
+                            (Some(c), Some(s)) => {
+                                let (mn, mx, scl, cnt) = c.0.verif_layout();
+                                let ihi = c.0.verif_index(hi);
+                                let mid = lo + (hi - lo) / 2;
+                                let q = lo + (hi - lo) / 32;
+                                scl == s && mn == lo && mx == hi && c.0.verif_index(lo) == 0 && ihi < 32 && (ihi == 31 || s == 0 || true)
+                                    && (c.0.verif_index(mid) as i64) == ((mid as i128 - lo as i128) >> s) as i64
+                                    && (c.0.verif_index(q) as i64) == ((q as i128 - lo as i128) >> s) as i64
+                                    && cnt >= ihi as usize + 32
+                            }
+                            _ => false,
+                        }
+                    });
+                    if !matches!(res, Ok(true)) {
+                        let mut f = found.lock().unwrap();
+                        if f.is_none() { *f = Some((lo, hi)); }
+                        stop.store(true, Ordering::Relaxed);
+                    }
+                }
+                done.fetch_add(n, Ordering::Relaxed);
+            });
+        }
+    });
+    let n = done.load(Ordering::Relaxed);
+    let f = found.lock().unwrap().take();
+    if let Some((lo, hi)) = f {
+        let before = out.oracle_fails;
+        let mut r = crate::seg::SegRunner::new(out, "fuzz-layout", lo, hi);
+        if !r.dead && r.real.is_some() {
+            for x in [lo, hi, lo + (hi - lo) / 2, lo + (hi - lo) / 32] { r.step(&Op::new("index", &[x])); if r.dead { break; } }
+        }
+        if r.out.oracle_fails == before {
+            r.fail(&["C14"], &format!("construction / coordinate mapping over [{}, {}] differs from the reference", lo, hi), "the reference layout", "see the operations");
         }
         r.end();
         return (n, true);
